@@ -176,9 +176,6 @@ func gen(tier string) []proto.Item {
 					s2.Inject = []proto.Inject{{OnTTL: g.ttl, AnswerTTL: g.ttl, Form: g.form, From: injFrom(evilFor(vi, g.form, "", ""), &s2, g.form), DelayUs: 700, Tag: "stale", PrevRun: true}}
 					s2.Hops = map[int]proto.HopSpec{g.ttl: {Form: g.form}}
 					s.Then = []proto.Scn{s2}
-					if tier != "thorough" && vi.Kind == "sack" {
-						s.Bound = -1 // two real TCP handshakes per execution: the quick tier runs these on the default schedule only
-					}
 					items = append(items, proto.Item{Scn: s, Class: fmt.Sprintf("%s/%s/%s/stale-previous-run", v, rtag, g.form)})
 				}
 			}
